@@ -120,12 +120,13 @@ package dkg
 //@ loop 1 invariant forall(j, 0, $i, has(pubShares, $ks[j].ValIdx) && has(pubShares[$ks[j].ValIdx], int($ks[j].SourceID)) && pubShares[$ks[j].ValIdx][int($ks[j].SourceID)] == res(0, pointToPubKey(r2Result[$ks[j]].VkShare)))
 //@ loop 1 invariant forallk(v, pubShares, forallk(s, pubShares[v], exists(j, 0, $i, $ks[j].ValIdx == v && int($ks[j].SourceID) == s)))
 //@ loop 2 invariant len(vIdxs) == $i && forall(j, 0, $i, vIdxs[j] == int($ks[j]) && vIdxs[j] >= 0 && vIdxs[j] <= 4294967295)
-//@ after slices.Sort: forallk(v, validators, pubSharesOf(pubShares[v], r2Result, v))
 //@ after slices.Sort: len(vIdxs) == len(validators)
 //@ after slices.Sort: forall(i, 0, len(vIdxs), vIdxs[i] >= 0 && vIdxs[i] <= 4294967295)
 //@ after slices.Sort: forall(i, 0, len(vIdxs), has(validators, uint32(vIdxs[i])))
 //@ after slices.Sort: forallk(x, validators, exists(i, 0, len(vIdxs), vIdxs[i] == int(x)))
 //@ after slices.Sort: forall(i, 0, len(vIdxs), forall(j, i, len(vIdxs), vIdxs[i] <= vIdxs[j]))
+// (what loop 1 collected, stated where it is used and not after a particular statement: the order of the collecting loops is free)
+//@ loop 3 invariant forallk(v, validators, pubSharesOf(pubShares[v], r2Result, v))
 //@ loop 3 invariant len(shares) == $i && forall(j, 0, $i, shareFor(shares[j], validators[uint32(vIdxs[j])], r2Result, uint32(vIdxs[j])))
 //@ loop 3 invariant forallk(x, validators, forall(j, 0, $i, vIdxs[j] == int(x) ==> shareFor(shares[j], validators[x], r2Result, x)))
 //@ canary r1 != nil
